@@ -534,10 +534,13 @@ def exec_code(stmts, st):
                 v = CTX.one() if v else CTX.one() * 0
             else:
                 # NM-TRAN variables are double precision: a value beyond its range is an overflow in NONMEM, not a
-                # number to compare (50-digit arithmetic would carry on with 10**(10**40))
+                # number to compare (50-digit arithmetic would carry on with 10**(10**40)).  And a variable beyond 1e35
+                # absorbs O(1) terms in 50-digit arithmetic as well as in double precision ('TV1 - THETA(4) - TV1' with
+                # TV1 = 1e212 is 0 here and in NONMEM, -THETA(4) in exact arithmetic): no arithmetic at hand says what
+                # such a program means to 1e-9, so the point is not compared
                 try:
-                    if abs(v) > 1e300:
-                        raise RefError("overflow of double precision")
+                    if abs(v) > 1e35:
+                        raise RefError("magnitude beyond the comparison arithmetic")
                 except TypeError:
                     pass
             st[s.target] = v
